@@ -5,7 +5,9 @@ import (
 	"context"
 	"encoding/json"
 	"fmt"
+	"reflect"
 	"runtime"
+	"strconv"
 	"strings"
 	"sync"
 
@@ -124,6 +126,21 @@ var c11Extra = []struct {
 	{"record-skip2", func(s *site) { s.mark(); wrapSkip2(s) }},
 	{"record-skip3", func(s *site) { s.mark(); wrapSkip3(s) }},
 	{"record-skip2-closure", func(s *site) { func() { s.mark(); wrapSkip2(s) }() }},
+	// skip 0 selects Record's own frame: a statement inside the body of log.Record (located through the function's entry, not hard-coded)
+	{"record-skip0", func(s *site) {
+		log.Record(s.ctx, log.WarnLevel, s.tag, 0, log.Msg(s.id))
+		fn := runtime.FuncForPC(reflect.ValueOf(log.Record).Pointer())
+		file, entry := fn.FileLine(fn.Entry())
+		locMu.Lock()
+		got := locGot[s.id]
+		locMu.Unlock()
+		s.want = "a statement of log.Record in " + file
+		if i := strings.LastIndex(got, ":"); i > 0 && got[:i] == file {
+			if l, err := strconv.Atoi(got[i+1:]); err == nil && l >= entry && l <= entry+20 {
+				s.want = got
+			}
+		}
+	}},
 	// a skip beyond the bottom of the stack selects no frame: the location is empty, in both modes
 	{"record-skip-beyond-stack", func(s *site) { s.want = ":0"; log.Record(s.ctx, log.WarnLevel, s.tag, 200, log.Msg(s.id)) }},
 	{"record-skip-huge", func(s *site) { s.want = ":0"; log.Record(s.ctx, log.WarnLevel, s.tag, 1<<40, log.Msg(s.id)) }},
